@@ -743,7 +743,10 @@ def compare_runs(ctx, ref, run, tols, tolname, counterfactual=None):
     # two recorded mechanisms of the site `minimize(tol=tol)`, each with its counterfactual:
     #   large units: absolute finite-difference STEP   (needs: traced ranges differ)
     #   small units: absolute GRADIENT tolerance gtol  (tol or 1e-5 is met at the start point)
-    mech = [("site:findLocalMinimum-absolute-step", "scaledstep", lam > 1 and ranges_differ),
+    # (the step mechanism also perturbs second derivatives of the tables at the 1e-5 level in
+    # large units without moving the traced range: visible at tightened tolerances; the
+    # counterfactual, not the range criterion, is what identifies it)
+    mech = [("site:findLocalMinimum-absolute-step", "scaledstep", lam > 1),
             ("site:findLocalMinimum-absolute-gtol", "scaledgtol", lam < 1)]
     for key, variant, pre in mech:
         if not (cand and pre and probe >= PROBE_TOL and counterfactual is not None
@@ -1307,7 +1310,9 @@ def run(ctx):
                 cross(m, t, [1e-2, 1e-1, 10.0, 100.0], W if m == "yukawa" else L)
         cross("xsm", "default", [1e-2, 1e-1], W)       # x10, x100: see the known finding
         cross("yukawa", "shipped", [1e-2, 10.0], ("lte",), "config")
-        cross("yukawa", "shipped", [1e-1, 100.0], L, "config")
+        # (yukawa x100 with the shipped tolerances: findJouguetVelocity fails -- the Jouguet
+        # point of this model lies beyond the low-T spinodal, outside the quantifier, C11)
+        cross("yukawa", "shipped", [1e-1], L, "config")
         cross("quarticlog", "shipped", [1e-2, 100.0], ("lte",), "config")
         cross("yukawa", "knobs", [1e-2, 10.0], L, "config")
         cross("quarticlog", "knobs", [1e-2, 100.0], H, "config")
